@@ -1258,3 +1258,139 @@ Section Operands.
   Lemma call_op_two n g l r : call_op self_alg f n g [l; r] = call_binary self_alg f n l r.
   Proof. reflexivity. Qed.
 End Operands.
+
+(* the clauses of the property, as single statements *)
+Theorem scalar_wrap {R} (self_alg : nat) (f : mv R -> mv R -> res (mv R)) (c : R) (o : operand R) :
+  call_binary_total self_alg f (ONum c) o = call_binary_total self_alg f (OMv self_alg [(0%Z, c)]) o /\
+  call_binary_total self_alg f o (ONum c) = call_binary_total self_alg f o (OMv self_alg [(0%Z, c)]).
+Proof. split; [apply scalar_wrap_left | apply scalar_wrap_right]. Qed.
+
+Theorem seq_maps {R} (self_alg : nat) (f : mv R -> mv R -> res (mv R)) (xs : list (operand R)) (o : operand R) :
+  let ev := call_binary_total self_alg f in
+  (* on the right, whatever the left operand is *)
+  ev o (OSeq xs) = (s <- mapM (fun x => ev o x) xs ;; Ok (RSeq s)) /\
+  ev o (OTup xs) = (s <- mapM (fun x => ev o x) xs ;; Ok (RTup s)) /\
+  (* on the left of a multivector / number / callable returning one: the other operand stays on the right *)
+  (atomic self_alg o ->
+   ev (OSeq xs) o = (s <- mapM (fun x => ev x o) xs ;; Ok (RSeq s)) /\
+   ev (OTup xs) o = (s <- mapM (fun x => ev x o) xs ;; Ok (RTup s))).
+Proof.
+  cbv zeta. repeat split; [apply seq_maps_right | apply tup_maps_right | apply seq_maps_left | apply tup_maps_left]; assumption.
+Qed.
+
+Theorem operand_order {R} (self_alg : nat) (f : mv R -> mv R -> res (mv R)) (a : nat) (x y z : mv R) :
+  let ev := call_binary_total self_alg f in
+  ev (OMv a x) (OMv a y) = (m <- f x y ;; Ok (RMv m)) /\
+  ev (OSeq [OMv a x; OMv a y]) (OMv a z) = (u <- f x z ;; v <- f y z ;; Ok (RSeq [RMv u; RMv v])) /\
+  ev (OMv a z) (OSeq [OMv a x; OMv a y]) = (u <- f z x ;; v <- f z y ;; Ok (RSeq [RMv u; RMv v])).
+Proof. cbv zeta. repeat split; [apply leaves_in_order | apply seq_left_two | apply seq_right_two]. Qed.
+
+(* ================================================================================================
+   F. non-vacuity: the statements above on concrete data (Z coefficients) *)
+Section Examples.
+  Local Open Scope Z_scope.
+  Let sl a b c := ISlice (mkSlice a b c).
+
+  (* subscripts *)
+  Example ex_slice_neg_start : slice_pos 5 (mkSlice (Some (-2)) None None) = Ok [3; 4]%nat.
+  Proof. reflexivity. Qed.
+  Example ex_slice_neg_step : slice_pos 5 (mkSlice None None (Some (-2))) = Ok [4; 2; 0]%nat.
+  Proof. reflexivity. Qed.
+  Example ex_slice_clipped : slice_pos 3 (mkSlice (Some (-10)) (Some 10) None) = Ok [0; 1; 2]%nat.
+  Proof. reflexivity. Qed.
+  Example ex_slice_zero_step : slice_pos 3 (mkSlice None None (Some 0)) = Err EValue.
+  Proof. reflexivity. Qed.
+
+  (* two blades, three points, both storage kinds *)
+  Let Xl : smv Z := mkSmv [1; 2] (LBack [CArr [10; 11; 12]; CArr [20; 21; 22]]).
+  Let Xn : smv Z := mkSmv [1; 2] (Nd2 3 [[10; 11; 12]; [20; 21; 22]]).
+
+  Example ex_get_neg_int :
+    mv_getitem Xl (PyOne (IInt (-1))) = Ok (mkSmv [1; 2] (LBack [CNp 12; CNp 22])) /\
+    mv_getitem Xn (PyOne (IInt (-1))) = Ok (mkSmv [1; 2] (Nd1 [12; 22])).
+  Proof. split; reflexivity. Qed.
+  Example ex_get_slice :
+    mv_getitem Xl (PyOne (sl None None (Some (-1)))) = Ok (mkSmv [1; 2] (LBack [CArr [12; 11; 10]; CArr [22; 21; 20]])) /\
+    mv_getitem Xn (PyTup [sl (Some 1) None None]) = Ok (mkSmv [1; 2] (Nd2 2 [[11; 12]; [21; 22]])).
+  Proof. split; reflexivity. Qed.
+  Example ex_get_raises :
+    mv_getitem Xl (PyOne (IInt 3)) = Err EIndex /\ mv_getitem Xn (PyOne (IInt (-4))) = Err EIndex /\
+    mv_getitem Xn (PyTup [IInt 0; IInt 0]) = Err EIndex /\
+    mv_getitem Xn (PyOne (sl None None (Some 0))) = Err EValue /\
+    mv_getitem (mkSmv [1; 2] (LBack [CArr [1; 2]; CNum 5])) (PyOne (IInt 0)) = Err EType /\
+    (* ragged list storage: the first coefficient for which the subscript fails decides *)
+    mv_getitem (mkSmv [1; 2] (LBack [CArr [1; 2; 3]; CArr [4]])) (PyOne (IInt 2)) = Err EIndex /\
+    (* a multivector without keys: list storage never raises, ndarray storage checks the trailing axis *)
+    mv_getitem (mkSmv [] (LBack [])) (PyOne (IInt 7)) = Ok (mkSmv [] (LBack ([] : list (coef Z)))) /\
+    mv_getitem (mkSmv [] (Nd2 3 ([] : list (list Z)))) (PyOne (IInt 7)) = Err EIndex.
+  Proof. repeat split; reflexivity. Qed.
+
+  (* assignment: exactly the addressed entries, for both storage kinds *)
+  Let V : rhs Z := FromMv [1; 2] (LBack [CArr [7; 8]; CArr [9; 6]]).
+  Example ex_set_slice :
+    mv_setitem Xl (PyOne (sl (Some 1) None None)) V = (LBack [CArr [10; 7; 8]; CArr [20; 9; 6]], None) /\
+    mv_setitem Xn (PyOne (sl (Some 1) None None)) V = (Nd2 3 [[10; 7; 8]; [20; 9; 6]], None) /\
+    mv_setitem Xn (PyOne (sl None None (Some (-2)))) V = (Nd2 3 [[8; 11; 7]; [6; 21; 9]], None).
+  Proof. repeat split; reflexivity. Qed.
+  (* the fixed finding: number coefficients are broadcast blade by blade, for both storage kinds *)
+  Example ex_set_scalar_broadcast :
+    let W := FromMv [1; 2] (LBack [CNum 7; CNum 8]) in
+    mv_setitem Xl (PyOne (sl None None None)) W = (LBack [CArr [7; 7; 7]; CArr [8; 8; 8]], None) /\
+    mv_setitem Xn (PyOne (sl None None None)) W = (Nd2 3 [[7; 7; 7]; [8; 8; 8]], None) /\
+    mv_setitem Xn (PyOne (IInt 0)) W = (Nd2 3 [[7; 11; 12]; [8; 21; 22]], None) /\
+    mv_setitem Xn (PyTup []) (FromMv [1; 2] (Nd1 [7; 8])) = (Nd2 3 [[7; 7; 7]; [8; 8; 8]], None).
+  Proof. repeat split; reflexivity. Qed.
+  Example ex_set_raises :
+    (* other keys: ValueError, nothing changes *)
+    mv_setitem Xn (PyOne (IInt 0)) (FromMv [2; 1] (Nd1 [7; 8])) = (s_vals Xn, Some EValue) /\
+    (* the second coefficient is too short: IndexError, the first one stays assigned *)
+    mv_setitem (mkSmv [1; 2] (LBack [CArr [1; 2; 3]; CArr [4]])) (PyOne (IInt 2)) (FromMv [1; 2] (Nd1 [7; 8]))
+      = (LBack [CArr [1; 2; 7]; CArr [4]], Some EIndex) /\
+    (* a shape that cannot be broadcast: ValueError *)
+    mv_setitem Xn (PyOne (sl None None None)) (FromMv [1; 2] (Nd2 2 [[1; 2]; [3; 4]])) = (s_vals Xn, Some EValue) /\
+    (* a plain number is not iterable; the numbers of a 1-D ndarray cannot be assigned into *)
+    mv_setitem Xn (PyOne (IInt 0)) (FromNum 5) = (s_vals Xn, Some EType) /\
+    mv_setitem (mkSmv [1; 2] (Nd1 [3; 4])) (PyTup []) (FromMv [1; 2] (Nd1 [7; 8])) = (Nd1 [3; 4], Some EType) /\
+    (* no key: nothing to do, no exception *)
+    mv_setitem (mkSmv [] (Nd2 3 ([] : list (list Z)))) (PyOne (sl None None None)) (FromMv [] (LBack [])) = (Nd2 3 [], None).
+  Proof. repeat split; reflexivity. Qed.
+  (* the hypotheses of the round-trip theorems hold on this data *)
+  Example ex_round_trip_hyps :
+    wf_store (s_vals Xn) /\
+    Forall (fun so => forall ad, addr_of (coef_len (fst so)) [sl (Some 1) None None] = Ok ad -> aligned ad (snd so))
+           (combine (entries (s_vals Xn)) (entries (LBack [CArr [7; 8]; CArr [9; 6]]))).
+  Proof.
+    split; [repeat constructor|].
+    repeat constructor; cbn; intros ad [= <-]; eexists; split; reflexivity.
+  Qed.
+  Example ex_shape_itermv :
+    mv_shape Xl = [2; 3]%nat /\ mv_shape Xn = [2; 3]%nat /\ mv_shape (mkSmv [1] (LBack [CNum 5])) = [1]%nat /\
+    mv_shape (mkSmv [] (LBack ([] : list (coef Z)))) = [0]%nat /\
+    mv_itermv Xn true = ItGen [Ok (mkSmv [1; 2] (Nd1 [10; 20])); Ok (mkSmv [1; 2] (Nd1 [11; 21])); Ok (mkSmv [1; 2] (Nd1 [12; 22]))] /\
+    mv_itermv Xn false = ItErr ENotImpl /\
+    mv_itermv (mkSmv [1] (Nd1 [5])) false = ItSelf (mkSmv [1] (Nd1 [5])).
+  Proof. repeat split; reflexivity. Qed.
+
+  (* operands: a visibly non-commutative operator (concatenation of the stored pairs) *)
+  Let cat (x y : mv Z) : res (mv Z) := Ok (x ++ y).
+  Let x : mv Z := [(1, 1)]. Let y : mv Z := [(2, 2)]. Let z : mv Z := [(3, 3)].
+  Let ev := call_binary_total 0%nat cat.
+  Example ex_seq_left : ev (OSeq [OMv 0 x; OMv 0 y]) (OMv 0 z) = Ok (RSeq [RMv (x ++ z); RMv (y ++ z)]).
+  Proof. reflexivity. Qed.
+  Example ex_tup_right : ev (OMv 0 z) (OTup [OMv 0 x; OMv 0 y]) = Ok (RTup [RMv (z ++ x); RMv (z ++ y)]).
+  Proof. reflexivity. Qed.
+  Example ex_number_and_callables :
+    ev (OCall (OCall (ONum 5))) (OCall (OMv 0 z)) = Ok (RMv ([(0, 5)] ++ z)) /\
+    ev (OMv 0 z) (OSeq [OCall (ONum 5); OTup [OMv 0 x]]) = Ok (RSeq [RMv (z ++ [(0, 5)]); RTup [RMv (z ++ x)]]).
+  Proof. split; reflexivity. Qed.
+  (* sequences on both sides: the outer shape is the one of the RIGHT operand *)
+  Example ex_both_sides :
+    ev (OSeq [OMv 0 x; OMv 0 y]) (OTup [OMv 0 z; ONum 4])
+    = Ok (RTup [RSeq [RMv (x ++ z); RMv (y ++ z)]; RSeq [RMv (x ++ [(0, 4)]); RMv (y ++ [(0, 4)])]]).
+  Proof. reflexivity. Qed.
+  Example ex_algebra_error : ev (OSeq [OMv 0 x; OMv 1 y]) (OMv 0 z) = Err EAlgebra /\ ev (OMv 1 x) (OMv 1 y) = Ok (RMv (x ++ y)).
+  Proof. split; reflexivity. Qed.
+  Example ex_fuel : call_binary 0%nat cat 3 (OCall (OCall (OCall (ONum 5)))) (OMv 0 z) = Err EFuel /\
+                    call_binary 0%nat cat 5 (OCall (OCall (OCall (ONum 5)))) (OMv 0 z) = Ok (RMv ([(0, 5)] ++ z)).
+  Proof. split; reflexivity. Qed.
+End Examples.
